@@ -2,24 +2,14 @@
 From Coq Require Import ZArith Reals Lra Psatz List Bool Lia.
 From PW Require Import Num NumR Vec Mat NpList Result.
 From PW.model Require Import M_rodrigues M_affine M_rotation M_composite.
+From PW.model Require Export M_affine_spec M_composite_spec.
 From PW.proofs Require Import P_vec P_mat P_nplist P_affine P_rotation.
 Import ListNotations.
 Local Open Scope R_scope.
 
-(* ---------------- the invariant ---------------- *)
-Definition pair_ok (fr : mat4 R * mat4 R) : Prop :=
-  affine ROps (fst fr) /\ affine ROps (snd fr) /\ inverse_pair (fst fr) (snd fr).
-Definition Inv (st : cstate (F:=R)) : Prop := Forall pair_ok st.
 
 (* what the documentation demands of the arguments: explicit matrices have last row (0,0,0,1) and, when an inverse
    is passed, it is the inverse; rotation matrices are orthogonal.  Nothing is demanded of the other methods. *)
-Definition op_ok (o : op R) : Prop :=
-  match o with
-  | OAppend f None => affine ROps f
-  | OAppend f (Some r) => affine ROps f /\ inverse_pair f r
-  | ORotate (RotMat m) => orthogonal3 m
-  | _ => True
-  end.
 
 Lemma inverse_affine f r : affine ROps f -> mmul ROps f r = I4 ROps -> affine ROps r.
 Proof.
@@ -214,29 +204,6 @@ Proof.
   - rewrite <- apply_point_mmul by (apply tmf_affine, H). rewrite H2. apply apply_point_I4.
 Qed.
 
-(* ---------------- documented action of each step ---------------- *)
-Definition flip_vec (dim : Z) : vec3 R :=
-  if (dim =? 0)%Z then V3 (-1) 1 1 else if (dim =? 1)%Z then V3 1 (-1) 1 else V3 1 1 (-1).
-(* what the step does to a point p (the identity for calls that raise) *)
-Definition doc_action (o : op R) (p : vec3 R) : vec3 R :=
-  match o with
-  | OAppend f _ => mapply_pt ROps f p
-  | OUniformScale s _ => vscale ROps s p
-  | ONonUniformScale x y z _ => vmul ROps (V3 x y z) p
-  | OConvertUnits s => vscale ROps s p
-  | OFlip dim => vmul ROps (flip_vec dim) p
-  | OTranslate t => vadd ROps p t
-  | ORotate a => m3apply ROps (rotation3 ROps a) p
-  | OReorient up look =>
-      match rotation_from_up_and_look ROps up look with Ok r => m3apply ROps r p | Raise _ => p end
-  end.
-(* ... and to a vector (translations drop out) *)
-Definition doc_action_vec (o : op R) (p : vec3 R) : vec3 R :=
-  match o with
-  | OAppend f _ => m3apply ROps (mupper3 f) p
-  | OTranslate t => p
-  | _ => doc_action o p
-  end.
 
 Lemma nus_acts x y z allow fr p : tm_non_uniform_scale ROps x y z allow = Ok fr ->
   mapply_pt ROps (fst fr) p = vmul ROps (V3 x y z) p /\ mapply_vec ROps (fst fr) p = vmul ROps (V3 x y z) p.
@@ -269,12 +236,6 @@ Proof.
     unfold tm_rotation; cbn [fst rotation3]. apply convert_acts_vec.
 Qed.
 
-(* a call that raises has no effect; an accepted call acts as documented *)
-Definition step_action (o : op R) (w : bool) (q : vec3 R) : vec3 R :=
-  match op_pair ROps o with
-  | Ok _ => if w then doc_action_vec o q else doc_action o q
-  | Raise _ => q
-  end.
 Lemma run_ops_actions ops : forall st w p,
   fold_left (fun q fr => apply_point ROps (fst fr) w q) (run_ops ROps ops st) p =
   fold_left (fun q o => step_action o w q) ops (fold_left (fun q fr => apply_point ROps (fst fr) w q) st p).
@@ -368,13 +329,6 @@ Lemma translate_no_effect_on_vectors t fr v : op_pair ROps (OTranslate t) = Ok f
   apply_point ROps (fst fr) true v = v /\ apply_point ROps (snd fr) true v = v.
 Proof. cbn [op_pair]. intros H. injection H as <-. rewrite !apply_point_vec. apply tm_translation_vec. Qed.
 
-(* ---------------- the call over any sub-range, forward and reverse, in terms of the accepted calls ---------------- *)
-Definition accepts (o : op R) : bool := match op_pair ROps o with Ok _ => true | Raise _ => false end.
-Definition accepted_ops (ops : list (op R)) : list (op R) := filter accepts ops.
-Definition pair_of (o : op R) : mat4 R * mat4 R :=
-  match op_pair ROps o with Ok fr => fr | Raise _ => (I4 ROps, I4 ROps) end.
-(* what the stored inverse matrix of an accepted step does *)
-Definition step_inverse_action (o : op R) (w : bool) (q : vec3 R) : vec3 R := apply_point ROps (snd (pair_of o)) w q.
 
 Lemma run_ops_accepted ops : forall st, run_ops ROps ops st = st ++ map pair_of (accepted_ops ops).
 Proof.
